@@ -8,7 +8,7 @@ CW=/tmp/confirm-$ID
 mkdir -p $OUT
 cd $WT || exit 1
 git diff HEAD -- . ':(exclude)SEED_NOTES.md' > $OUT/patch.diff
-DEMOS=$(git ls-files --others --exclude-standard | grep -v SEED_NOTES.md | grep -v '^target/' || true)
+DEMOS=$(git ls-files --others --exclude-standard | grep -v SEED_NOTES.md | grep -v change.patch | grep -v '^target/' || true)
 [ -f SEED_NOTES.md ] && cp SEED_NOTES.md $OUT/SEED_NOTES.md
 mkdir -p $OUT/demo
 for f in $DEMOS; do mkdir -p $OUT/demo/$(dirname $f); cp $f $OUT/demo/$f; done
